@@ -106,7 +106,7 @@ class Registry:
       for c in ordered:
         if c.when is None:
           return c
-      return ordered[0]
+      return None          # every variant declined this call shape: the callee's real body is used
     return ordered[0]
 
   def for_prop(self, prop):
